@@ -1,8 +1,20 @@
 """C10 — the Edit widget behaves as a text editor model for any key sequence.
-Reference editor: spec/EditOps.tla; model: spec/Edit.tla; trace spec: spec/EditTrace.tla."""
+Reference editor: spec/EditOps.tla (Ref; RefInt = the integer variant: digits only, zeros in front of the number left of the cursor dropped
+after every key); model: spec/Edit.tla (every alignment, wrap any / clip, the view of the focused widget shifted to the cursor, the integer
+variant; wrong designs refuted); trace spec: spec/EditTrace.tla.
+
+The driver records key / click sequences on real widgets in worker processes (snapshot after every key: text, offset, cursor from
+get_cursor_coords and from the focused canvas, the cursor stops of the layout the widget reports, signals) and TLC judges every event:
+cursor inside the widget, cursor on the stop of the offset (every alignment, every wrap mode incl. clip), text / offset / handled equal to the
+reference, signal pairs.  Families: exhaustive short sequences on small configurations, narrow widths with double-width characters, align
+right / center x wrap space / any / clip at widths around the row length, rows mixing double-width and zero-width characters (clicks on every
+column, every preferred column carried in), seeded random sequences, IntEdit / IntegerEdit / FloatEdit random and exhaustive sequences,
+IntEdit with numbers holding zeros (judged by RefInt)."""
 from __future__ import annotations
 
+import hashlib
 import json
+import multiprocessing
 
 from .. import term, tlc
 
@@ -41,10 +53,12 @@ def stops_of(layout, full, is_bytes, enc, w=None):
             if len(seg) == 3 and isinstance(seg[1], int) and isinstance(seg[2], int):
                 s, e = idx(seg[1]), idx(seg[2])
                 for p in range(s, e):
-                    w = term.char_width(chars[p])
-                    if w > 0:
-                        row.append([p, col, w])
-                        col += w
+                    cw = term.char_width(chars[p])
+                    # a zero-width (combining) character has no cell of its own: it is drawn into the cell of the character in front of
+                    # it.  Its offset is a stop of width 0 (left / right move by one character) that no column designates: a click on
+                    # the cell, or a preferred column inside it, belongs to the base character's stop.
+                    row.append([p, col, cw, 1 if cw == 0 else 0])
+                    col += cw
                 endpos = e
                 endcol = col
             elif len(seg) == 2:
@@ -56,7 +70,7 @@ def stops_of(layout, full, is_bytes, enc, w=None):
                 col += seg[0]
         if endpos is None:
             endpos = 0
-        row.append([endpos, endcol, 0])
+        row.append([endpos, endcol, 0, 0])
         rows.append(row)
     # a soft-wrapped row (filled to the last column, or followed by a wide character that did not fit into the cells left) has no
     # end-of-row stop of its own: that offset is the first stop of the next row, and the layout has no end marker for it
@@ -91,9 +105,12 @@ def snapshot(e, w, caplen, is_bytes, enc):
     try:
         st = stops_of(e.get_line_translation(w), full, is_bytes, enc, w)
     except KeyError:
-        st = [[[0, 0, 0]]]
+        st = [[[0, 0, 0, 0]]]
         aligned = False
     return {"text": text, "pos": pos, "cur": cur, "rcur": rcur, "stops": st, "aligned": aligned}
+
+
+DUMMY = {"text": [], "pos": 0, "cur": [0, 0], "rcur": [0, 0], "stops": [[[0, 0, 0, 0]]], "aligned": True}
 
 
 def keyrec(k, c=0, x=0, y=0):
@@ -110,9 +127,18 @@ def run_edit(cfg, keys):
     is_bytes = cfg.get("bytes", False)
     if is_bytes:
         cap, txt = cap.encode(enc), txt.encode(enc)
-    e = urwid.Edit(cap, txt, multiline=cfg["multiline"], allow_tab=cfg["allow_tab"], wrap=cfg["wrap"], align=cfg["align"],
-                   mask=cfg.get("mask") if not is_bytes else None)
+    if cfg.get("kind") == "IntEdit":
+        e = urwid.IntEdit(cap, cfg["opts"].get("default"))
+        kind, numeric, allowed = "int", 1, [ord(c) for c in "0123456789"]
+    else:
+        e = urwid.Edit(cap, txt, multiline=cfg["multiline"], allow_tab=cfg["allow_tab"], wrap=cfg["wrap"], align=cfg["align"],
+                       mask=cfg.get("mask") if not is_bytes else None)
+        kind, numeric, allowed = "edit", 0, []
+    if cfg.get("pos") is not None:
+        e.set_edit_pos(cfg["pos"])
     w = cfg["w"]
+    head = {"caplen": len(cfg["caption"]), "numeric": numeric, "kind": kind, "w": w, "allowed": allowed, "neg": 0,
+            "opt": {"multiline": cfg["multiline"], "allow_tab": cfg["allow_tab"]}, "cfg": cfg, "keys": keys}
     caplen = len(cfg["caption"])
     sigs = []
     if cfg.get("validator"):
@@ -131,12 +157,12 @@ def run_edit(cfg, keys):
         return [ord(c) for c in t]
 
     ev = []
-    judge = 1 if (cfg["wrap"] in ("space", "any") and cfg.get("judge", True)) else 0
+    judge = 1 if cfg.get("judge", True) else 0
     try:
         pre = snapshot(e, w, caplen, is_bytes, enc)
     except Exception as ex:  # noqa: BLE001
-        return {"caplen": caplen, "numeric": 0, "allowed": [], "neg": 0, "opt": {"multiline": cfg["multiline"], "allow_tab": cfg["allow_tab"]},
-                "cfg": cfg, "keys": keys, "ev": [{"exc": "snapshot:" + type(ex).__name__, "key": keyrec("f5"), "judge": 0}]}
+        return {**head, "init": DUMMY, "ev": [{"exc": "snapshot:" + type(ex).__name__, "key": keyrec("f5"), "judge": 0}]}
+    head["init"] = pre
     for k in keys:
         del sigs[:]
         rec = {"key": k, "exc": "", "ret": 0, "judge": 0 if (k["k"] == "tab" and is_bytes) else judge, "pre": pre}
@@ -160,20 +186,24 @@ def run_edit(cfg, keys):
         pre = post
         if rec["exc"]:
             break
-    return {"caplen": caplen, "numeric": 0, "allowed": [], "neg": 0, "opt": {"multiline": cfg["multiline"], "allow_tab": cfg["allow_tab"]},
-            "cfg": cfg, "keys": keys, "ev": ev}
+    return {**head, "ev": ev}
+
+
+def int_cfg(default, w=24, caption="n ", pos=None):
+    """IntEdit recorded like an Edit (stops, cursor, signals) and judged by the integer reference (EditOps.RefInt)."""
+    return {"kind": "IntEdit", "opts": {"default": default}, "caption": caption, "text": "", "w": w, "wrap": "space", "align": "left",
+            "multiline": False, "allow_tab": False, "pos": pos}
 
 
 def run_numeric(kind, opts, keys):
     import urwid
     from urwid import numedit
 
+    if kind == "IntEdit":
+        return run_edit(int_cfg(opts.get("default")), keys)
     urwid.set_encoding("utf-8")
     neg = 0
-    if kind == "IntEdit":
-        e = urwid.IntEdit("n ", opts.get("default"))
-        allowed = "0123456789"
-    elif kind == "IntegerEdit":
+    if kind == "IntegerEdit":
         base = opts.get("base", 10)
         neg = 1 if opts.get("neg") else 0
         e = numedit.IntegerEdit("n ", opts.get("default"), base=base, allow_negative=bool(neg))
@@ -186,7 +216,7 @@ def run_numeric(kind, opts, keys):
         allowed = "0123456789" + sep
     ev = []
     w = 12
-    dummy = {"text": [], "pos": 0, "cur": [0, 0], "rcur": [0, 0], "stops": [[[0, 0, 0]]], "aligned": True}
+    dummy = DUMMY
     for k in keys:
         rec = {"key": k, "exc": "", "ret": 0, "judge": 0, "pre": dummy, "sig": []}
         try:
@@ -197,11 +227,11 @@ def run_numeric(kind, opts, keys):
         except Exception as ex:  # noqa: BLE001
             rec["exc"] = type(ex).__name__
         t = e.edit_text
-        rec["post"] = {"text": [ord(c) for c in t], "pos": e.edit_pos, "cur": [0, 0], "rcur": [0, 0], "stops": [[[0, 0, 0]]], "aligned": True}
+        rec["post"] = {"text": [ord(c) for c in t], "pos": e.edit_pos, "cur": [0, 0], "rcur": [0, 0], "stops": [[[0, 0, 0, 0]]], "aligned": True}
         ev.append(rec)
         if rec["exc"]:
             break
-    return {"caplen": 2, "numeric": 1, "allowed": [ord(c) for c in allowed], "neg": neg, "opt": {"multiline": False, "allow_tab": False},
+    return {"init": DUMMY, "caplen": 2, "numeric": 1, "kind": "num", "w": w, "allowed": [ord(c) for c in allowed], "neg": neg, "opt": {"multiline": False, "allow_tab": False},
             "cfg": {"kind": kind, "opts": opts}, "keys": keys, "ev": ev}
 
 
@@ -218,65 +248,287 @@ def random_keys(rng, n, w, chars, rows=4):
     return out
 
 
-MC_CFG = """CONSTANTS Chars = {chars} W = {w} Depth = {d} Multiline = {ml}
-Caption <- CaptionDef
+MC_CFG = """CONSTANTS Chars = {chars} W = {w} Depth = {d} Multiline = {ml} Align = "{align}" Wrap = "{wrap}" Kind = "{kind}" View = "{view}" Trim = "{trim}"
+Caption <- {cap}
+Start <- {start}
 SPECIFICATION Spec
 INVARIANT PosInRange
 INVARIANT CursorOnChar
+INVARIANT CursorInsideWidget
+INVARIANT ClickOnCursorKeepsOffset
 INVARIANT HomeEndStayOnRow
 INVARIANT VerticalKeepsText
 INVARIANT UnusedKeyNoChange
+INVARIANT IntDigitsOnly
+INVARIANT IntNoZeroLeftOfCursor
+INVARIANT IntTrimKeepsDigits
 CHECK_DEADLOCK FALSE
 """
+
+
+def mc_cfg(**kw):
+    d = {"chars": "{97, 98, 32}", "w": 3, "d": 4, "ml": "TRUE", "align": "left", "wrap": "any", "kind": "edit", "view": "shift", "trim": "trim",
+         "cap": "CaptionDef", "start": "StartEmpty"}
+    d.update(kw)
+    return MC_CFG.format(**d)
+
+
+def mc_runs(quick):
+    """(name, cfg, the invariant a wrong design must be refuted by or None) of the model runs."""
+    dd = 0 if quick else 1
+    return [
+        ("MC_Edit_reference_editor", mc_cfg(d=4 + 2 * dd), None),
+        ("MC_Edit_right_aligned", mc_cfg(align="right", d=3 + 3 * dd), None),
+        ("MC_Edit_centred", mc_cfg(align="center", w=4, d=3 + dd), None),
+        ("MC_Edit_clip_right", mc_cfg(align="right", wrap="clip", start="StartAbc", d=3 + dd, chars="{97, 32}"), None),
+        ("MC_Edit_clip_centred", mc_cfg(align="center", wrap="clip", start="StartAbc", d=3 + dd, chars="{97, 32}"), None),
+        ("MC_IntEdit_reference", mc_cfg(kind="int", chars="{48, 55, 97}", w=5 + 3 * dd, d=4 + dd, ml="FALSE", start="Start502", cap="NoCaption"), None),
+        # wrong designs: the view does not follow the cursor; a view shift that cancels the alignment padding is dropped; zeros are dropped
+        # from the text before the cursor is moved (the cursor is pulled back twice at the end of the text)
+        ("MC_refute_view_never_shifted", mc_cfg(view="noshift"), "CursorInsideWidget"),
+        ("MC_refute_shift_dropped_when_it_cancels_alignment", mc_cfg(align="right", view="keepOnCancel"), "CursorInsideWidget"),
+        ("MC_refute_zeros_dropped_before_cursor_moved",
+         mc_cfg(kind="int", chars="{48, 55}", w=5, d=4, ml="FALSE", start="Start502", cap="NoCaption", trim="clampFirst"), "IntTrimKeepsDigits"),
+    ]
+
+
+def situations(t):
+    """Vacuity counters of one recorded trace: which keys were judged, which of the situations the families are built for occurred."""
+    out = {}
+
+    def hit(name):
+        out[name] = out.get(name, 0) + 1
+
+    cfg = t["cfg"]
+    for e in t["ev"]:
+        hit(("numeric." if t["numeric"] else "edit.") + e["key"]["k"] + (".judged" if e.get("judge") else ""))
+        if t["kind"] == "num" or "post" not in e or e["exc"]:
+            continue
+        post, pre = e["post"], e["pre"]
+        row = post["stops"][post["cur"][1]] if 0 <= post["cur"][1] < len(post["stops"]) else [[0, 0, 0, 0]]
+        at = post["pos"] + t["caplen"]
+        if t["kind"] == "edit":
+            narrow = row[-1][1] - row[0][1] < t["w"]
+            if cfg["align"] != "left" and row[0][1] > 0:
+                hit("situation.cursor_on_row_moved_by_alignment." + cfg["align"])
+            if cfg["align"] != "left" and narrow and row[0][1] == 0 and row[-1][0] == at and len(row) > 1:
+                hit("situation.view_shift_cancels_alignment_padding." + cfg["align"])
+            if cfg["wrap"] == "clip" and row[0][1] < 0:
+                hit("situation.clip_view_shifted_left")
+            if cfg["wrap"] == "clip" and row[-1][1] > t["w"] and post["cur"][0] == 0:
+                hit("situation.clip_cursor_at_hidden_row_start" if row[0][0] == at else "situation.clip_row_overflows_right")
+            zw = any(s[2] == 0 for s in row[:-1])
+            if zw and any(s[2] == 2 for s in row) and e["key"]["k"] in ("click", "up", "down") and e["judge"]:
+                hit("situation.column_into_row_mixing_wide_and_zero_width." + e["key"]["k"])
+            if zw and any(s[2] == 0 and s[0] == at for s in row[:-1]):
+                hit("situation.cursor_on_zero_width_character")
+        else:
+            used = e["ret"] == 0
+            dropped = len(pre["text"]) + (1 if e["key"]["k"] == "char" and used else 0) - (1 if e["key"]["k"] in ("backspace", "delete") and used else 0) - len(post["text"])
+            if pre["text"][:1] == [48] and pre["pos"] == 0:
+                hit("situation.intedit.leading_zero_at_cursor_start")
+            if dropped > 0:
+                hit("situation.intedit.zeros_dropped")
+                if post["pos"] == len(post["text"]) and post["text"]:
+                    hit("situation.intedit.zeros_dropped_cursor_at_end")
+                if 0 < post["pos"] < len(post["text"]):
+                    hit("situation.intedit.zeros_dropped_cursor_inside")
+    return out
+
+
+NEED = ["cursor_on_row_moved_by_alignment.right", "cursor_on_row_moved_by_alignment.center", "view_shift_cancels_alignment_padding.right",
+        "view_shift_cancels_alignment_padding.center", "clip_view_shifted_left", "clip_cursor_at_hidden_row_start",
+        "column_into_row_mixing_wide_and_zero_width.click", "column_into_row_mixing_wide_and_zero_width.up", "column_into_row_mixing_wide_and_zero_width.down",
+        "cursor_on_zero_width_character", "intedit.leading_zero_at_cursor_start", "intedit.zeros_dropped", "intedit.zeros_dropped_cursor_at_end",
+        "intedit.zeros_dropped_cursor_inside"]
+FAMILIES = ("small", "wide", "aligned", "mixed_width", "mixed_keys", "random", "numeric_random", "numeric_exhaustive", "intedit_zeros", "numeric_digit_like")
+
+
+def record(cfg, keys):
+    if "kind" in cfg and cfg["kind"] != "IntEdit":
+        return run_numeric(cfg["kind"], cfg["opts"], keys)
+    if cfg.get("kind") == "IntEdit" and "w" not in cfg:
+        cfg = int_cfg(cfg["opts"].get("default"))
+    return run_edit(cfg, keys)
+
+
+def _record(job):
+    """Worker process: one key sequence on a fresh widget -> (family, trace for TLC, what stays with the driver, vacuity counters)."""
+    family, cfg, keys = job
+    try:
+        tr = record(cfg, keys)
+    except Exception as ex:  # noqa: BLE001  (constructor of a numeric variant rejected the option combination)
+        if "kind" in cfg and cfg["kind"] != "IntEdit":
+            return family, "numeric_constructor_rejected." + type(ex).__name__, None, None
+        raise
+    return family, slim(tr), {"cfg": tr["cfg"], "keys": tr["keys"]}, situations(tr)
 
 
 def _handle(chk, traces, res):
     for ti, l, why in res.rejects:
         tr = traces[ti]
+        if "ev" not in tr:      # the driver kept configuration and keys only: record the (deterministic) sequence again for the replay file
+            tr = record(tr["cfg"], tr["keys"])
         e = tr["ev"][l - 1]
         cfg = tr["cfg"]
         sig = {"key": e["key"]["k"], "exc": e["exc"], "wrap": cfg.get("wrap", ""), "align": cfg.get("align", ""), "kind": cfg.get("kind", "Edit"),
                "bytes": bool(cfg.get("bytes", False)), "w": cfg.get("w", 0)}
+        # where the layout the widget reports has no place for the cursor offset (findings: a display row of zero-width characters only)
+        post = e.get("post") or {}
+        at = post.get("pos", 0)
+        sig["offset_in_layout"] = any(s[0] == at + tr["caplen"] for row in post.get("stops", []) for s in row)
+        sig["zero_width_at_offset"] = bool(tr["kind"] == "edit" and post.get("aligned") and at < len(post.get("text", []))
+                                           and post["text"][at] != 10 and term.char_width(chr(post["text"][at])) == 0)
         chk.reject(f"C10.{why}", sig, {"cfg": cfg, "keys": tr["keys"][:l], "observed": {k: e[k] for k in ("key", "exc", "ret", "pre", "post", "sig") if k in e}})
 
 
+TLC_FIELDS = ("caplen", "numeric", "kind", "w", "allowed", "neg", "opt", "init")
+
+
+def slim(tr):
+    """What the trace specification reads: no configuration / key list, and the snapshot before an event only once (it is the snapshot
+    after the event in front of it)."""
+    out = {k: tr[k] for k in TLC_FIELDS}
+    out["ev"] = [{k: v for k, v in e.items() if k != "pre"} for e in tr["ev"]]
+    return out
+
+
+class _Validator:
+    """Trace validation overlapped with the recording: full batches go to TLC while the worker processes record the next sequences."""
+
+    def __init__(self, batch_events, jobs, timeout):
+        import concurrent.futures as cf
+
+        self.cf = cf
+        self.pool = cf.ThreadPoolExecutor(jobs)
+        self.batch_events, self.timeout, self.jobs = batch_events, timeout, jobs
+        self.batch, self.futs, self.count, self.n = [], [], 0, 0
+
+    def add(self, tr):
+        self.batch.append(tr)
+        self.count += 1
+        self.n += len(tr["ev"]) + 1
+        if self.n >= self.batch_events:
+            self.flush()
+
+    def flush(self):
+        if self.batch:
+            pending = [f for _, f in self.futs if not f.done()]
+            if len(pending) >= self.jobs + 2:          # do not pile up batches in memory faster than TLC takes them
+                self.cf.wait(pending, return_when=self.cf.FIRST_COMPLETED)
+            self.futs.append((self.count - len(self.batch),
+                              self.pool.submit(tlc.validate, "EditTrace", self.batch, batch_events=10 ** 9, jobs=1, timeout=self.timeout)))
+            self.batch, self.n = [], 0
+
+    def result(self):
+        self.flush()
+        res = tlc.TVResult()
+        for off, f in self.futs:
+            r = f.result()
+            res.traces += r.traces
+            res.events += r.events
+            res.consumed += r.consumed
+            res.states += r.states
+            res.generated += r.generated
+            res.batches += 1
+            res.wall_s += r.wall_s
+            res.rejects += [(off + ti, l, why) for ti, l, why in r.rejects]
+        self.pool.shutdown()
+        return res
+
+
+ZW = "́"      # a combining (zero-width) character
+WIDE = "字"    # a double-width character
+
+
+def words(alphabet, lengths):
+    import itertools
+
+    return ["".join(t) for n in lengths for t in itertools.product(alphabet, repeat=n)]
+
+
 def run(chk):
+    import concurrent.futures as cf
+    import itertools
+    import time
+
     quick = chk.tier == "quick"
     rng = chk.rng
-    r = tlc.mc("Edit", MC_CFG.format(chars="{97, 98, 32}", w=3, d=4 if quick else 5, ml="TRUE"), timeout=2400, workers=8)
-    chk.add_mc("MC_Edit_reference_editor", r)
-    if not r.ok:
-        chk.reject("C10.model." + str(r.violated), {"model": "Edit"}, {"tlc_trace": r.trace[-5:]})
-    traces = []
+    t_start = time.time()
+    # the recording (real widgets) runs in forked worker processes, the model checking and the trace validation (TLC) beside it
+    rec_pool = multiprocessing.get_context("fork").Pool(4 if quick else 6)          # forked before any thread exists
+    mc_pool = cf.ThreadPoolExecutor(2)
+    mc_jobs = [(name, want, mc_pool.submit(tlc.mc, "Edit", cfg, timeout=2400, workers=2 if quick else 4)) for name, cfg, want in mc_runs(quick)]
+    tv = _Validator(batch_events=15000, jobs=4, timeout=2400)
+    fam = {}
+    jobs = []
+
+    def job(family, cfg, keys):
+        jobs.append((family, cfg, keys))
+
     # ---- exhaustive short key sequences on small configurations ----
     base_keys = [keyrec("char", 97), keyrec("char", 32), keyrec("left"), keyrec("right"), keyrec("up"), keyrec("down"), keyrec("home"),
                  keyrec("end"), keyrec("backspace"), keyrec("delete"), keyrec("enter"), keyrec("f5"), keyrec("click", 0, 1, 1), keyrec("click", 0, 3, 0)]
     depth = 2 if quick else 3
-    import itertools
-
     for wrap in ("space", "any"):
         for (cap, txt, w) in (("", "ab cd", 3), ("? ", "abc\nd", 4), ("c\n", "ab", 2)):
             cfg = {"caption": cap, "text": txt, "w": w, "wrap": wrap, "align": "left", "multiline": True, "allow_tab": False, "validator": w == 4}
             for seq in itertools.product(base_keys, repeat=depth):
-                traces.append(run_edit(cfg, list(seq)))
+                job("small", cfg, list(seq))
     # narrow widths with double-width characters: rows that end early because the next character does not fit, a cursor behind a
     # character that fills the row (found by the thorough tier's larger sample; exhaustive pairs here)
     wide_keys = [*base_keys, keyrec("char", 0x5B57), keyrec("click", 0, 1, 2), keyrec("click", 0, 0, 3)]
     for wrap in ("space", "any"):
-        for (cap, txt, w) in (("\u5b57 ", "a", 2), ("", "\u5b57a\U0001f600a", 2), ("c\n", "\u5b57a", 3), ("\u5b57 ", " a", 2)):
+        for (cap, txt, w) in (("字 ", "a", 2), ("", "字a\U0001f600a", 2), ("c\n", "字a", 3), ("字 ", " a", 2)):
             cfg = {"caption": cap, "text": txt, "w": w, "wrap": wrap, "align": "left", "multiline": True, "allow_tab": False}
             for seq in itertools.product(wide_keys, repeat=2):
-                traces.append(run_edit(cfg, list(seq)))
+                job("wide", cfg, list(seq))
             if not quick:
                 for seq in itertools.product(wide_keys, repeat=3):
-                    traces.append(run_edit(cfg, list(seq)))
+                    job("wide", cfg, list(seq))
+    # ---- every alignment and wrap mode at widths around the row length: rows one or two columns narrower than the widget (the cursor
+    # behind the last character needs the row moved by exactly its alignment padding), rows that fill it, rows that overflow (clip: the
+    # view follows the cursor to the hidden start / end of the row).  Every pair (thorough: triple) of keys.
+    for (cap, txt) in (("", "abcd"), ("? ", "ab\ncdef")):
+        rowlen = 4
+        for w in (rowlen - 1, rowlen, rowlen + 1, rowlen + 2):
+            al_keys = [keyrec("char", 97), keyrec("left"), keyrec("right"), keyrec("up"), keyrec("down"), keyrec("home"), keyrec("end"),
+                       keyrec("backspace"), keyrec("delete"), keyrec("enter"), keyrec("click", 0, 0, 0), keyrec("click", 0, w - 1, 1)]
+            for align in ("right", "center") if quick else ("right", "center", "left"):
+                for wrap in ("space", "any", "clip"):
+                    cfg = {"caption": cap, "text": txt, "w": w, "wrap": wrap, "align": align, "multiline": True, "allow_tab": False}
+                    for seq in itertools.product(al_keys, repeat=2 if quick or wrap == "space" else 3):
+                        job("aligned", cfg, list(seq))
+    # ---- rows mixing double-width and zero-width (combining) characters: every row over {a, wide, combining} up to a length, between two
+    # plain rows.  A click on every column of the row; every preferred column carried into the row from above and from below, and through it.
+    mixed_rows = words("a" + WIDE + ZW, (1, 2, 3) if quick else (1, 2, 3, 4))
+    for r in mixed_rows:
+        plain = "a" * (2 * max(len(x) for x in mixed_rows))
+        w = len(plain) + 1
+        for is_bytes in ((False,) if quick else (False, True)):
+            for align in ("left", "right"):
+                cfg = {"caption": "", "text": plain + "\n" + r + "\n" + plain, "w": w, "wrap": "space", "align": align, "multiline": True, "allow_tab": False,
+                       "bytes": is_bytes}
+                for x in range(w):
+                    job("mixed_width", cfg, [keyrec("click", 0, x, 1)])
+                    job("mixed_width", cfg, [keyrec("click", 0, x, 0), keyrec("down"), keyrec("down")])
+                    job("mixed_width", cfg, [keyrec("click", 0, x, 2), keyrec("up"), keyrec("up")])
+    # every pair of keys (incl. typing a combining character, moving by one character onto it, deleting next to it) on mixed texts
+    mixed_keys = [*wide_keys, keyrec("char", ord(ZW))]
+    for wrap in ("space", "any"):
+        for (cap, txt, w) in (("", WIDE + "e" + ZW + "x", 3), ("? ", "e" + ZW + WIDE + "\nx" + ZW, 5)):
+            cfg = {"caption": cap, "text": txt, "w": w, "wrap": wrap, "align": "left", "multiline": True, "allow_tab": False}
+            for seq in itertools.product(mixed_keys, repeat=2 if quick else 3):
+                job("mixed_keys", cfg, list(seq))
     # ---- seeded random sequences over the option space ----
-    n_rand = 2500 if quick else 120000
+    n_rand = 1800 if quick else 90000
     alph_simple = "ab c"
     for i in range(n_rand):
         wrap = rng.choice(["space", "any", "any", "space", "clip"])
         wide = rng.random() < 0.3
         chars = alph_simple + ("字" if wide else "") + ("\U0001F600" if wide and rng.random() < 0.5 else "")   # 3- and 4-byte characters
+        if rng.random() < 0.25:
+            chars += ZW
         is_bytes = rng.random() < 0.2
         enc = "utf-8"
         cfg = {"caption": rng.choice(["", "? ", "cap ", "c\n", "字 " if wide else "x"]),
@@ -287,12 +539,12 @@ def run(chk):
                "validator": rng.random() < 0.3}
         if not cfg["multiline"]:
             cfg["text"] = cfg["text"].replace("\n", " ")
-        traces.append(run_edit(cfg, random_keys(rng, rng.randint(2, 10), cfg["w"], chars + ("é" if is_bytes else ""))))
+        job("random", cfg, random_keys(rng, rng.randint(2, 10), cfg["w"], chars + ("é" if is_bytes else "")))
     # ---- numeric variants ----
     for i in range(600 if quick else 20000):
         kind = ["IntEdit", "IntegerEdit", "FloatEdit"][i % 3]
         base = rng.choice([2, 8, 10, 16])
-        opts = {"default": rng.choice([None, 0, 7, 120, "005"]) if kind == "IntEdit" else rng.choice([None, 0, 1, 10, 11 if base > 2 else 1]),
+        opts = {"default": rng.choice([None, 0, 7, 120, "005", 1000, 3050]) if kind == "IntEdit" else rng.choice([None, 0, 1, 10, 11 if base > 2 else 1]),
                 "base": base, "neg": rng.random() < 0.5, "sep": rng.choice([".", ","]), "sig": rng.random() < 0.5}
         if kind == "FloatEdit" and opts["default"] is not None:
             opts["default"] = rng.choice([None, "1.5" if opts["sep"] == "." else None, 2])
@@ -300,45 +552,99 @@ def run(chk):
         for _ in range(rng.randint(1, 12)):
             r = rng.random()
             if r < 0.6:
-                keys.append(keyrec("char", ord(rng.choice("0123456789-.,aAfFxz +e\u00b2\u0663\uff15"))))
-            else:
+                keys.append(keyrec("char", ord(rng.choice("0123456789-.,aAfFxz +e²٣５"))))
+            elif r < 0.95 or kind != "IntEdit":
                 keys.append(keyrec(rng.choice(["left", "right", "home", "end", "backspace", "delete", "enter", "up"])))
-        try:
-            traces.append(run_numeric(kind, opts, keys))
-        except Exception as ex:  # noqa: BLE001  (constructor rejected the option combination)
-            chk.count("numeric_constructor_rejected." + type(ex).__name__)
+            else:
+                keys.append(keyrec("click", 0, rng.randint(0, 9), 0))
+        job("numeric_random", {"kind": kind, "opts": opts}, keys)
     # ---- numeric variants: every key sequence of length <= L over a small alphabet (sign, digits, separator, moves, deletes) ----
     nkeys = [keyrec("char", ord(c)) for c in "-10."] + [keyrec(k) for k in ("home", "end", "left", "backspace", "delete")]
     L = 4 if quick else 5
     for kind, opts in (("IntegerEdit", {"default": None, "base": 10, "neg": True}), ("FloatEdit", {"default": None, "neg": True, "sep": ".", "sig": True}),
                        ("IntegerEdit", {"default": 10, "base": 10, "neg": False}), ("IntEdit", {"default": None})):
         for seq in itertools.product(nkeys, repeat=L):
-            traces.append(run_numeric(kind, opts, list(seq)))
+            job("numeric_exhaustive", {"kind": kind, "opts": opts}, list(seq))
+    # IntEdit with a number that has zeros inside: every key sequence up to a length over digits (a zero, a non-zero), moves and deletes.
+    # Deleting in front of inner zeros exposes them as leading zeros, with the cursor in front of, inside or behind them.
+    zkeys = [keyrec("char", ord(c)) for c in "07"] + [keyrec(k) for k in ("home", "end", "left", "right", "backspace", "delete")]
+    # Numbers over {a zero, a non-zero digit} (given as text: leading zeros included, the cursor starts behind them).
+    long_defaults = words("50", (4,))
+    if quick:
+        long_defaults = rng.sample(long_defaults, 2)
+    for d in [*words("50", (3,) if quick else (2, 3)), *long_defaults]:
+        for seq in itertools.product(zkeys, repeat=3 if quick or len(d) > 3 else 4):
+            job("intedit_zeros", int_cfg(d), list(seq))
+        for pos in range(len(d) + 1):                 # the same, started by a click on every digit
+            for seq in itertools.product(zkeys, repeat=2):
+                job("intedit_zeros", int_cfg(d), [keyrec("click", 0, 2 + pos, 0), *seq])
     # digit-like characters outside the ASCII alphabet, alone and after a digit, on every numeric variant
     for kind, opts in (("IntEdit", {"default": None}), ("IntEdit", {"default": 7}), ("IntegerEdit", {"default": None, "base": 10, "neg": True}),
                        ("IntegerEdit", {"default": None, "base": 16, "neg": False}), ("FloatEdit", {"default": None, "neg": True, "sep": ".", "sig": True})):
-        for ch in "\u00b2\u0663\uff15\u2460\u096b\u00bd\uff21\u0391":
+        for ch in "²٣５①५½ＡΑ":
             for pre in ([], [keyrec("char", ord("1"))], [keyrec("char", ord("1")), keyrec("home")]):
-                traces.append(run_numeric(kind, opts, pre + [keyrec("char", ord(ch)), keyrec("char", ord("2"))]))
-    res = tlc.validate("EditTrace", traces, batch_events=6000, timeout=2400)
+                job("numeric_digit_like", {"kind": kind, "opts": opts}, pre + [keyrec("char", ord(ch)), keyrec("char", ord("2"))])
+    t_gen = time.time()
+    traces, counts, nontriv = [], {}, set()
+    window = 20000      # sequences handed to the workers at a time: what they recorded ahead of TLC stays bounded
+    for start in range(0, len(jobs), window):
+        for family, tr, kept, sit in rec_pool.imap(_record, jobs[start:start + window], chunksize=150):
+            if isinstance(tr, str):       # the constructor of a numeric variant rejected the option combination
+                chk.count(tr)
+                continue
+            fam[family] = fam.get(family, 0) + 1
+            for k, v in sit.items():
+                counts[k] = counts.get(k, 0) + v
+            nontriv.add(hashlib.blake2b(json.dumps([kept["cfg"], kept["keys"]], sort_keys=True, default=str).encode(), digest_size=8).digest())
+            traces.append(kept)
+            tv.add(tr)
+    rec_pool.close()
+    rec_pool.join()
+    t_rec = time.time()
+    res = tv.result()
     chk.add_tv("TV_EditTrace", res)
     _handle(chk, traces, res)
+    t_tv = time.time()
+    # ---- the model: the reference on every alignment / wrap mode / the integer variant; wrong designs refuted ----
+    for name, want, fut in mc_jobs:
+        r = fut.result()
+        chk.add_mc(name, r)
+        if want is None:
+            if not r.ok:
+                chk.reject("C10.model." + str(r.violated), {"model": "Edit", "run": name}, {"tlc_trace": r.trace[-5:]})
+        else:
+            chk.count("model.wrong_design_refuted." + name, 1 if r.violated == want else 0)
+            if r.violated != want:
+                chk.vacuity.append(f"model.{name}: wrong design not refuted by {want} (got {r.violated})")
+    mc_pool.shutdown()
+    chk.cov["phase_wall_s"] = {"generate_sequences": round(t_gen - t_start, 1), "record_on_real_widgets": round(t_rec - t_gen, 1),
+                               "wait_for_trace_validation": round(t_tv - t_rec, 1), "wait_for_model_checking": round(time.time() - t_tv, 1),
+                               "tlc_seconds_trace_validation": round(res.wall_s, 1)}
+    chk.note(f"phases: {chk.cov['phase_wall_s']}")
     kinds = dict(chk.cov["clause_counts"])
-    nontriv = set()
-    for t in traces:
-        for e in t["ev"]:
-            k = ("numeric." if t["numeric"] else "edit.") + e["key"]["k"] + (".judged" if e.get("judge") else "")
-            kinds[k] = kinds.get(k, 0) + 1
-        nontriv.add(json.dumps([t["cfg"], t["keys"]], sort_keys=True, default=str))
+    for k, v in counts.items():
+        kinds[k] = kinds.get(k, 0) + v
+    for f, c in fam.items():
+        kinds["family." + f] = c
+    for nm in NEED:
+        if not counts.get("situation." + nm):
+            chk.vacuity.append("situation." + nm)
+    for f in FAMILIES:
+        if not fam.get(f):
+            chk.vacuity.append("family." + f)
     chk.cov["clause_counts"] = kinds
     chk.cov["distinct_nontrivial"] = len(nontriv)
-    chk.cov["rule"] = ("key/click sequences on real Edit widgets: every sequence of length 2/3 over 14 keys on six small configurations, seeded random "
-                       "sequences over caption/text/width/wrap/align/multiline/allow_tab/str|bytes, and random sequences on IntEdit/IntegerEdit/FloatEdit; "
-                       "distinct = distinct (configuration, key sequence)")
+    chk.cov["rule"] = ("key/click sequences on real Edit widgets: every sequence of length 2/3 over 14 keys on six small configurations (+ narrow widths with "
+                       "double-width characters); every pair/triple of 12 keys for align right/center x wrap space/any/clip at widths rowlength-1..+2; a click "
+                       "on every column of, and every preferred column carried into, every row over {narrow, double-width, zero-width} up to length 3/4; "
+                       "seeded random sequences over caption/text/width/wrap/align/multiline/allow_tab/str|bytes; random sequences on "
+                       "IntEdit/IntegerEdit/FloatEdit, every sequence of length 4/5 over 9 keys on four numeric configurations, every sequence of length 3/4 "
+                       "over 8 keys on IntEdit with numbers holding inner zeros (judged by the integer reference); distinct = distinct (configuration, key sequence)")
     chk.sample({"cfg": traces[0]["cfg"], "keys": traces[0]["keys"]})
     chk.sample({"cfg": traces[-1]["cfg"], "keys": traces[-1]["keys"]})
     chk.cov["trusted_base"] = ["TLC", "stops_of(): cursor stops derived from the widget's own layout (layout contract = C03)", "vf/term.char_width"]
-    chk.assumptions += ["clip mode and texts with zero-width characters: robustness, cursor and signal clauses only (reference not applied)",
+    chk.assumptions += ["IntegerEdit / FloatEdit: alphabet and robustness clauses only (no reference for their value-preserving rewrites)",
+                        "a zero-width character is a cursor stop of its own (urwid moves by code point); no column designates it",
                         "highlight is dead code; mask only affects rendering"]
 
 
@@ -346,11 +652,13 @@ def replay(chk, path):
     with open(path) as f:
         rp = json.load(f)["replay"]
     cfg = rp["cfg"]
-    if "kind" in cfg:
+    if cfg.get("kind") == "IntEdit":
+        tr = run_edit(cfg, rp["keys"])
+    elif "kind" in cfg:
         tr = run_numeric(cfg["kind"], cfg["opts"], rp["keys"])
     else:
         tr = run_edit(cfg, rp["keys"])
-    res = tlc.validate("EditTrace", [tr])
+    res = tlc.validate("EditTrace", [slim(tr)])
     chk.add_tv("replay", res)
     _handle(chk, [tr], res)
     chk.sample({"cfg": cfg, "keys": rp["keys"]})
